@@ -402,6 +402,13 @@ def run_query(pid, q, wdir, tier, findings):
             elif conf: f['status'] = 'confirmed'
             else: f['status'] = 'unconfirmed'
         rec['failures'].append(f)
+    # the native run stops at its first failing assertion: a counterexample for a later assertion of the same harness that natively
+    # trips an earlier assertion which the solver also refuted is shadowed by that (reported) failure, not unconfirmed
+    failing = set(f['label'] for f in rec['failures'])
+    for f in rec['failures']:
+        if f.get('status') == 'unconfirmed':
+            m = re.search(r'VP_CHECK_FAIL (\S+)', f.get('native_tail') or '')
+            if m and m.group(1) in failing and m.group(1) != f['label']: f['status'] = 'shadowed'; f['shadowed_by'] = m.group(1)
     rec['verdict'] = verdict
     rec['wall_s'] = round(time.time() - t0, 2)
     return rec
@@ -479,6 +486,8 @@ def check(pid, tier, only=None, keep=False, jobs=None, list_only=False):
                 json.dump(dict(property=pid, query=rec['query'], src=q.src, defs=q.defs, entry=q.entry, rt=q.rt, params=q.params, label=f['label'],
                                description=f['description'], inputs=f['inputs'], native=f['native'], native_tail=f['native_tail']), open(rp, 'w'), indent=1)
                 violations.append((rec['query'], f['label'], rp))
+            elif f['status'] == 'shadowed':
+                pass
             elif f['status'] == 'bound_too_small':
                 problems.append('BOUND-TOO-SMALL query=%s (%s %s): an unwinding assertion failed, the query does not cover its stated bound' % (rec['query'], f.get('property'), f['description']))
             else:
